@@ -57,7 +57,7 @@ def spoil(rng, r):
     elif how == "node_md_none" and r["nodes"]:
         k = rng.choice(list(r["nodes"]))
         n = dict(r["nodes"][k])
-        if n["k"] != "NIRGraph":
+        if n["k"] not in ("NIRGraph", "__alias__"):
             n["args"] = dict(n["args"]); n["args"]["metadata"] = {"x": {"deep": None}}
             r["nodes"] = dict(r["nodes"]); r["nodes"][k] = n
     return r, how
@@ -67,11 +67,17 @@ def gen(rng, tier):
     N = 150 if tier == "quick" else 1800
     cases = []
     for _ in range(N):
-        r = S.serial_graph(rng, depth=rng.choice([0, 1, 2]), max_nodes=rng.choice([2, 4, 6]), shared=rng.random() < 0.2)
+        r = S.serial_graph(rng, depth=rng.choice([0, 1, 2, 2]), max_nodes=rng.choice([2, 4, 6]), shared=rng.random() < 0.2)
         r, how = spoil(rng, r)
         seq = [rng.choice(OBS) for _ in range(rng.randint(1, 6))]
-        cases.append({"kind": "observe", "recipe": V.enc_recipe(r), "how": how, "seq": seq,
-                      "stale": rng.random() < 0.25})
+        stale = rng.random() < 0.35
+        subs = [k for k, v in r["nodes"].items() if v["k"] == "NIRGraph"]
+        if stale and subs:
+            # the nested graph must be an edge endpoint and the type check must be among the observers
+            k = rng.choice(subs)
+            r["edges"] = list(r["edges"]) + [(k, k), (rng.choice(list(r["nodes"])), k)]
+            seq.insert(rng.randrange(len(seq) + 1), "check")
+        cases.append({"kind": "observe", "recipe": V.enc_recipe(r), "how": how, "seq": seq, "stale": stale})
     return cases
 
 
@@ -92,6 +98,8 @@ def fix_recipe(r):
         if "metadata" in r:
             r["metadata"] = materialise(r["metadata"])
         r["nodes"] = {k: fix_recipe(v) for k, v in r["nodes"].items()}
+    elif r["k"] == "__alias__":
+        return r
     elif "metadata" in r["args"]:
         r["args"] = dict(r["args"]); r["args"]["metadata"] = materialise(r["args"]["metadata"])
     return r
